@@ -2,9 +2,9 @@
 # runall.sh [tier]: every registered check once; prints one line per check.
 TIER=${1:-quick}
 rc=0
-for id in $(python3 -c "import json;print(' '.join(c['property_id'] for c in json.load(open('/verif/MANIFEST.json'))['checks']))"); do
+for id in $(python3 -c "import json;print(' '.join(c['property_id'] for c in json.load(open('$(dirname "$0")/../MANIFEST.json'))['checks']))"); do
   s=$(date +%s)
-  out=$(/verif/scripts/check.sh $id $TIER 2>&1); r=$?
+  out=$($(dirname "$0")/check.sh $id $TIER 2>&1); r=$?
   e=$(( $(date +%s) - s ))
   echo "$id rc=$r ${e}s $(echo "$out" | grep -c '^VIOLATION') violations, $(echo "$out" | grep -c '^INCONCLUSIVE') inconclusive, $(echo "$out" | grep -c '^HARNESS')" harness-errors
   [ $r -ne 0 ] && { rc=1; echo "$out" | grep -E '^(VIOLATION|HARNESS|  signature)' | head -5 | cut -c1-300; }
